@@ -19,7 +19,7 @@ NOISE = [b"<!-- <meta charset=koi8-r> -->", b"<!--", b"-->", b"<title>", b"</tit
          b"<script>", b"'", b"\"", b"</ ", b"<a b=c d='e' f=\"g\" h>", b"x" * 40, b"<1>", b"</>", b"<b/>"]
 
 
-def spec_get_attr(s, p):
+def spec_get_attr(s, p, lt_ends=False):
     """WHATWG 'get an attribute'; returns (name, value, newpos) or (None, None, newpos)"""
     n = len(s)
     while p < n and s[p] in b"\t\n\x0c\r /":
@@ -60,6 +60,8 @@ def spec_get_attr(s, p):
                 return None, None, p
             c = s[p]
             if c == q:
+                if lt_ends and p + 1 >= n:
+                    raise StopIteration      # recorded deviation: a quoted value ending at the very end of the data
                 return bytes(name), bytes(value), p + 1
             value.append(c + 32 if 65 <= c <= 90 else c)
     if c == 0x3E:
@@ -70,7 +72,7 @@ def spec_get_attr(s, p):
         if p >= n:
             return None, None, p
         c = s[p]
-        if c in b"\t\n\x0c\r >":
+        if c in b"\t\n\x0c\r >" or (lt_ends and c == 0x3C):
             return bytes(name), bytes(value), p
         value.append(c + 32 if 65 <= c <= 90 else c)
         p += 1
@@ -104,15 +106,39 @@ def spec_charset_from_content(v):
     return v[p:j]
 
 
-def spec_prescan(s):
+def dev_content(v):
+    """html5lib's ContentAttrParser: only the first 'charset' is considered; an unquoted value ends at whitespace only"""
+    v = v.lower()
+    i = v.find(b"charset")
+    if i < 0:
+        return None
+    p = i + 7
+    while p < len(v) and v[p] in b"\t\n\x0c\r ":
+        p += 1
+    if p >= len(v) or v[p] != 0x3D:
+        return None
+    p += 1
+    while p < len(v) and v[p] in b"\t\n\x0c\r ":
+        p += 1
+    if p >= len(v):
+        return None
+    if v[p] in b"\"'":
+        j = v.find(bytes([v[p]]), p + 1)
+        return v[p + 1:j] if j >= 0 else None
+    j = p
+    while j < len(v) and v[j] not in b"\t\n\x0c\r ":
+        j += 1
+    return v[p:j]
+
+
+def spec_prescan(s, dev=False):
     """WHATWG 'prescan a byte stream to determine its encoding' (2020), on the first 1024 bytes"""
     import webencodings
-    s = s[:1024]
     n = len(s)
     p = 0
     while p < n:
         if s.startswith(b"<!--", p):
-            j = s.find(b"-->", p + 2)
+            j = s.find(b"-->", p + (4 if dev else 2))     # recorded deviation: '<!-->' is not a complete comment
             if j < 0:
                 return None
             p = j + 3
@@ -125,12 +151,37 @@ def spec_prescan(s):
             need_pragma = None
             charset = None
             while True:
-                name, value, p = spec_get_attr(s, p)
+                name, value, p = spec_get_attr(s, p, dev)
                 if name is None:
                     break
-                if name in seen:
+                if name in seen and not dev:
                     continue
                 seen.add(name)
+                if dev:
+                    # recorded deviation: attributes are acted upon one by one, the first decisive one wins
+                    if name == b"http-equiv":
+                        got_pragma = value == b"content-type"
+                        if got_pragma and charset is not None and need_pragma:
+                            return "utf-8" if charset.name in ("utf-16le", "utf-16be") else charset.name
+                    elif name == b"charset":
+                        try:
+                            enc = webencodings.lookup(value.decode("ascii"))
+                        except UnicodeDecodeError:
+                            enc = None
+                        if enc is not None:
+                            return "utf-8" if enc.name in ("utf-16le", "utf-16be") else enc.name
+                    elif name == b"content":
+                        e = dev_content(value)
+                        if e is not None:
+                            try:
+                                enc = webencodings.lookup(e.decode("ascii"))
+                            except UnicodeDecodeError:
+                                enc = None
+                            if enc is not None:
+                                if got_pragma:
+                                    return "utf-8" if enc.name in ("utf-16le", "utf-16be") else enc.name
+                                charset, need_pragma = enc, True
+                    continue
                 if name == b"http-equiv":
                     if value == b"content-type":
                         got_pragma = True
@@ -151,7 +202,7 @@ def spec_prescan(s):
                         enc = None
                     charset = enc
                     need_pragma = False
-            if need_pragma is None or (need_pragma and not got_pragma) or charset is None:
+            if dev or need_pragma is None or (need_pragma and not got_pragma) or charset is None:
                 p += 0
                 continue
             if charset.name in ("utf-16le", "utf-16be"):
@@ -159,19 +210,44 @@ def spec_prescan(s):
             return charset.name
         if s[p:p + 1] == b"<" and p + 1 < n and (chr(s[p + 1]).isalpha() and s[p + 1] < 128):
             p += 1
-            while p < n and s[p] not in b"\t\n\x0c\r >":
+            while p < n and s[p] not in b"\t\n\x0c\r >" and not (dev and s[p] == 0x3C):
                 p += 1
+            if dev and p < n and s[p] == 0x3C:
+                continue
             while True:
-                name, value, p = spec_get_attr(s, p)
+                name, value, p = spec_get_attr(s, p, dev)
                 if name is None:
                     break
             continue
+        if dev and s[p:p + 2] == b"</":
+            # recorded deviation: handlePossibleEndTag advances once more before looking at the tag name
+            q = p + 3
+            if q >= n:
+                return None
+            if chr(s[q]).isalpha() and s[q] < 128:
+                p = q
+                while p < n and s[p] not in b"\t\n\x0c\r ><":
+                    p += 1
+                if p < n and s[p] == 0x3C:
+                    continue
+                while True:
+                    name, value, p = spec_get_attr(s, p, dev)
+                    if name is None:
+                        break
+                continue
+            j = s.find(b">", q - 1)
+            if j < 0:
+                return None
+            p = j + 1
+            continue
         if s[p:p + 2] == b"</" and p + 2 < n and (chr(s[p + 2]).isalpha() and s[p + 2] < 128):
             p += 2
-            while p < n and s[p] not in b"\t\n\x0c\r >":
+            while p < n and s[p] not in b"\t\n\x0c\r >" and not (dev and s[p] == 0x3C):
                 p += 1
+            if dev and p < n and s[p] == 0x3C:
+                continue
             while True:
-                name, value, p = spec_get_attr(s, p)
+                name, value, p = spec_get_attr(s, p, dev)
                 if name is None:
                     break
             continue
@@ -181,6 +257,8 @@ def spec_prescan(s):
                 return None
             p = j + 1
             continue
+        if dev and s[p:p + 1] == b"<":
+            p += 1          # html5lib: the byte after a '<' that starts nothing is skipped as well
         p += 1
     return None
 
@@ -225,7 +303,7 @@ class C06(Plugin):
         return out
 
     def known_witnesses(self):
-        return {"C06-prescan-duplicate-attribute": {"k": 0, "b": list(b"<meta charset=bogus charset=utf-8>")}}
+        return {"C06-prescan-syntactic-deviations": {"k": 0, "b": list(b"<meta charset=bogus charset=utf-8>")}}
 
     def cases(self, rng, n, tier):
         labs = [x.encode() for x in LABELS_OK] + [x.encode("utf-8") for x in LABELS_BAD]
@@ -296,13 +374,12 @@ class C06(Plugin):
             if got in ("utf-16le", "utf-16be"):
                 got = "utf-8"
             if want != got:
-                dup = False
-                import re
-                for m in re.finditer(rb"<meta[\s/][^>]*", b.lower()):
-                    names = re.findall(rb"[\s/]([a-z-]+)\s*=", m.group(0))
-                    if len(names) != len(set(names)):
-                        dup = True
-                cls = "prescan-duplicate-attribute" if dup else "prescan-differs-from-standard"
+                # the standard's algorithm with exactly the recorded deviations switched on
+                try:
+                    dev = spec_prescan(b, dev=True)
+                except StopIteration:
+                    dev = None
+                cls = "prescan-recorded-deviation" if dev == got else "prescan-differs-from-standard"
                 v.append((cls, repr((b[:200], got, want))))
         if k == 3:
             # the documented precedence, evaluated independently
@@ -323,7 +400,7 @@ class C06(Plugin):
             if bom is None and b[:4] not in (b"\xff\xfe\x00\x00", b"\x00\x00\xfe\xff"):
                 bom = "utf-16le" if b.startswith(b"\xff\xfe") else "utf-16be" if b.startswith(b"\xfe\xff") else None
             ov, tr, pa, li, de = [lk(a) for a in case["args"]]
-            meta = _inputstream.EncodingParser(b[:1024]).getEncoding()
+            meta = _inputstream.EncodingParser(b[:1024]).getEncoding()   # (the window: first 1024 bytes)
             meta = meta.name if meta else None
             if meta in ("utf-16le", "utf-16be"):
                 meta = "utf-8"
@@ -337,8 +414,8 @@ class C06(Plugin):
         return v
 
     def classify(self, cls, case, detail):
-        if cls == "prescan-duplicate-attribute":
-            return "C06-prescan-duplicate-attribute"
+        if cls == "prescan-recorded-deviation":
+            return "C06-prescan-syntactic-deviations"
         return None
 
     def nontrivial_key(self, case, out):
